@@ -26,6 +26,64 @@ type driver struct {
 	lastTable *drvTable                               // the table of the latest evalOverTable that needed one
 	saw       *drvTable                               // set when an evaluation needed "the current element" of a table and none was selected
 	appends   []drvAppend                             // the append sites the latest evaluations resolved list elements through
+	flagReads map[string][]symv                       // output key -> the flag sets its directory was read from directly (GetString on a parsed flag set)
+	entrySite ssa.CallInstruction                     // the unique static call of Compile inside cmd (nil when there is none or several)
+	entryDone bool
+}
+
+// fnPkg: the package of a function; an instance of a generic function belongs to the package of its origin.
+func fnPkg(f *ssa.Function) *ssa.Package {
+	if f == nil {
+		return nil
+	}
+	if f.Pkg == nil {
+		if o := f.Origin(); o != nil {
+			return o.Pkg
+		}
+	}
+	return f.Pkg
+}
+
+// entryBound: what a parameter of Compile that is neither the outputs map nor the input path is bound to - the argument at the one
+// place in cmd that calls Compile (a list of requests assembled by the command's Run function, ...).
+func (d *driver) entryBound(p *ssa.Parameter, e *drvEnv) (drvBound, bool) {
+	if p.Parent() != d.compile || d.compile == nil {
+		return drvBound{}, false
+	}
+	if _, isMap := p.Type().Underlying().(*types.Map); isMap || isStringType(p.Type()) {
+		return drvBound{}, false
+	}
+	if !d.entryDone {
+		d.entryDone = true
+		n := 0
+		for _, g := range d.w.srcFuncs {
+			if g.Pkg != d.w.Cmd && (g.Parent() == nil || g.Parent().Pkg != d.w.Cmd) {
+				continue
+			}
+			forEachInstr(g, func(_ *ssa.BasicBlock, ins ssa.Instruction) {
+				if c, ok := ins.(ssa.CallInstruction); ok && c.Common().StaticCallee() == d.compile {
+					d.entrySite = c
+					n++
+				}
+			})
+		}
+		if n != 1 {
+			d.entrySite = nil
+		}
+	}
+	if d.entrySite == nil {
+		return drvBound{}, false
+	}
+	for i, q := range d.compile.Params {
+		if q == p && i < len(d.entrySite.Common().Args) {
+			ne := &drvEnv{}
+			if e != nil {
+				ne.tbl, ne.lit = e.tbl, e.lit
+			}
+			return drvBound{d.entrySite.Common().Args[i], ne}, true
+		}
+	}
+	return drvBound{}, false
 }
 
 type drvAppend struct {
@@ -46,7 +104,7 @@ type drvTable struct {
 }
 
 func newDriver(w *World) *driver {
-	d := &driver{w: w, compile: w.Cmd.Func("Compile"), fns: map[*ssa.Function]bool{}, sites: map[*ssa.Function][]ssa.CallInstruction{}, tables: map[ssa.Value]*drvTable{}}
+	d := &driver{w: w, compile: w.Cmd.Func("Compile"), fns: map[*ssa.Function]bool{}, sites: map[*ssa.Function][]ssa.CallInstruction{}, tables: map[ssa.Value]*drvTable{}, flagReads: map[string][]symv{}}
 	if d.compile == nil {
 		return d
 	}
@@ -61,7 +119,7 @@ func newDriver(w *World) *driver {
 				return
 			}
 			g := c.Common().StaticCallee()
-			if g == nil || g.Pkg != w.Cmd || g.Blocks == nil || g == d.compile {
+			if g == nil || fnPkg(g) != w.Cmd || g.Blocks == nil || g == d.compile {
 				return
 			}
 			d.sites[g] = append(d.sites[g], c)
@@ -196,6 +254,15 @@ func (d *driver) findTables() {
 						}
 					}
 				}
+				// var table = [...]T{...}: the filled array itself is copied into the variable
+				if ld, ok := stripIdentity(st.Val).(*ssa.UnOp); ok && ld.Op == token.MUL {
+					if t := d.tables[stripIdentity(ld.X)]; t != nil {
+						d.tables[a] = t
+						for i, l := range t.lits {
+							l.tname, l.idx = a.Name(), i
+						}
+					}
+				}
 			}
 		})
 	}
@@ -226,6 +293,8 @@ func (d *driver) tableOf(base ssa.Value) *drvTable {
 		return d.tableOf(x.X)
 	case *ssa.Alloc:
 		return d.tables[x]
+	case *ssa.Global:
+		return d.tables[x] // an array variable indexed in place
 	case *ssa.UnOp:
 		if x.Op == token.MUL {
 			if g, ok := x.X.(*ssa.Global); ok {
@@ -303,6 +372,13 @@ func (d *driver) eval(v ssa.Value, e *drvEnv, depth int) symv {
 		ne := &drvEnv{free: map[*ssa.FreeVar]symv{}, tbl: e.tbl, lit: e.lit}
 		for i, b := range x.Bindings {
 			if i < len(fn.FreeVars) {
+				if al, ok := b.(*ssa.Alloc); ok {
+					if s := d.singleStore(al); s != nil {
+						// a variable captured by reference that is assigned once: its content
+						ne.free[fn.FreeVars[i]] = d.eval(s, e, depth+1)
+						continue
+					}
+				}
 				ne.free[fn.FreeVars[i]] = d.eval(b, e, depth+1)
 			}
 		}
@@ -315,6 +391,13 @@ func (d *driver) eval(v ssa.Value, e *drvEnv, depth int) symv {
 	case *ssa.Parameter:
 		if b, ok := e.params[x]; ok {
 			return d.eval(b.v, b.e, depth+1)
+		}
+		if b, ok := d.entryBound(x, e); ok {
+			return d.eval(b.v, b.e, depth+1)
+		}
+		if pt, ok := x.Type().(*types.Pointer); ok && typeIs(pt.Elem(), "github.com/spf13/cobra", "Command") && x.Parent() != nil && runFieldOf(d.w, x.Parent()) != "" {
+			// the command a Run function is invoked for
+			return symv{Kind: "runcmd", S: ownerCommandOf(d.w, x.Parent())}
 		}
 		if x.Parent() == d.compile {
 			if _, isMap := x.Type().Underlying().(*types.Map); isMap {
@@ -401,6 +484,23 @@ func (d *driver) eval(v ssa.Value, e *drvEnv, depth int) symv {
 			}
 		}
 		return out
+	case *ssa.Index:
+		if t := d.tableOf(x.X); t != nil {
+			el := d.elemOf(t, e)
+			if el.Kind == "elem" {
+				if _, plain := e.lit.fields[""]; plain {
+					return d.evalLitField("", e, depth)
+				}
+			}
+			return el
+		}
+		return unknown("indexed value")
+	case *ssa.IndexAddr:
+		// the address of a table entry stands for the entry (records that point at their row)
+		if t := d.tableOf(x.X); t != nil {
+			return d.elemOf(t, e)
+		}
+		return unknown("address of an indexed value")
 	case *ssa.Field:
 		b := d.eval(x.X, e, depth+1)
 		if b.Kind == "elem" {
@@ -550,15 +650,60 @@ func (d *driver) eval(v ssa.Value, e *drvEnv, depth int) symv {
 			}
 			return unknown("interface call " + cc.Method.Name())
 		}
-		if f := cc.StaticCallee(); f != nil {
-			if f.Pkg == d.w.Parser {
+		f := cc.StaticCallee()
+		args := cc.Args
+		var fenv *drvEnv
+		if f == nil {
+			if _, isB := cc.Value.(*ssa.Builtin); isB {
+				return unknown("builtin")
+			}
+			fv := d.eval(cc.Value, e, depth+1)
+			if fv.Kind == "unknown" {
+				return fv
+			}
+			if fv.Kind != "func" || fv.Fn == nil {
+				return unknown("call of a " + fv.Kind)
+			}
+			// a call through a function value is a call of the function it holds
+			f, fenv = fv.Fn, fv.Env
+		}
+		if len(f.FreeVars) == 0 {
+			if f.String() == "(*github.com/spf13/cobra.Command).Flags" && len(args) == 1 {
+				c := d.eval(args[0], e, depth+1)
+				if c.Kind == "runcmd" || c.Kind == "flagvar" {
+					return symv{Kind: "flagset", S: c.S}
+				}
+				return unknown("flag set of " + c.String())
+			}
+			if f.String() == "(*github.com/spf13/pflag.FlagSet).GetString" && len(args) == 2 {
+				// the parsed value of a string flag read from a flag set: the output directory of the target that flag selects
+				fs := d.eval(args[0], e, depth+1)
+				name := d.eval(args[1], e, depth+1)
+				if name.Kind == "unknown" {
+					return name
+				}
+				if name.Kind != "str" {
+					return unknown("value of a flag named by " + name.String())
+				}
+				if fs.Kind != "flagset" {
+					return unknown("value of flag --" + name.S + " of " + fs.String())
+				}
+				for _, k := range sortedKeys(flagKeyNames) {
+					if flagKeyNames[k] == name.S {
+						d.flagReads[k] = append(d.flagReads[k], fs)
+						return symv{Kind: "tuple", Elems: []symv{{Kind: "outkey", S: k}, {Kind: "flagerr", S: name.S}}}
+					}
+				}
+				return symv{Kind: "tuple", Elems: []symv{{Kind: "flagval", S: name.S}, {Kind: "flagerr", S: name.S}}}
+			}
+			if fnPkg(f) == d.w.Parser {
 				for _, g := range generators {
 					if f.Name() == g.Ctor {
 						return symv{Kind: "genobj", S: g.Ctor}
 					}
 				}
-				if f.Name() == "Generate" && len(cc.Args) > 0 {
-					r := d.eval(cc.Args[0], e, depth+1)
+				if f.Name() == "Generate" && len(args) > 0 {
+					r := d.eval(args[0], e, depth+1)
 					if r.Kind == "genobj" {
 						return symv{Kind: "gencall", S: r.S}
 					}
@@ -569,22 +714,15 @@ func (d *driver) eval(v ssa.Value, e *drvEnv, depth int) symv {
 				}
 				return unknown("call of parser." + f.Name())
 			}
-			if f.Pkg == d.w.Cmd && f.Blocks != nil {
-				return d.evalReturn(f, cc.Args, e, &drvEnv{tbl: e.tbl, lit: e.lit}, depth)
+			if fnPkg(f) == d.w.Cmd && f.Blocks != nil {
+				return d.evalReturn(f, args, e, &drvEnv{tbl: e.tbl, lit: e.lit}, depth)
 			}
 			return unknown("call of " + f.String())
 		}
-		if _, isB := cc.Value.(*ssa.Builtin); isB {
-			return unknown("builtin")
+		if f.Blocks != nil {
+			return d.evalReturn(f, args, e, fenv, depth)
 		}
-		fv := d.eval(cc.Value, e, depth+1)
-		if fv.Kind == "func" && fv.Fn != nil && fv.Fn.Blocks != nil {
-			return d.evalReturn(fv.Fn, cc.Args, e, fv.Env, depth)
-		}
-		if fv.Kind == "unknown" {
-			return fv
-		}
-		return unknown("call of a " + fv.Kind)
+		return unknown("call of a function value without a body")
 	}
 	return unknown(fmt.Sprintf("%T", v))
 }
@@ -601,6 +739,15 @@ func (d *driver) derivedElem(list ssa.Value, e *drvEnv, depth int, seen map[ssa.
 	case *ssa.Parameter:
 		if b, ok := e.params[x]; ok {
 			return d.derivedElem(b.v, b.e, depth+1, seen)
+		}
+		if b, ok := d.entryBound(x, e); ok {
+			return d.derivedElem(b.v, b.e, depth+1, seen)
+		}
+		return symv{}, false
+	case *ssa.Extract:
+		// one component of what a cmd helper returns (`list, err := assemble(...)`)
+		if c, ok := x.Tuple.(*ssa.Call); ok {
+			return d.derivedFromCall(c, x.Index, e, depth, seen)
 		}
 		return symv{}, false
 	case *ssa.Slice:
@@ -661,37 +808,52 @@ func (d *driver) derivedElem(list ssa.Value, e *drvEnv, depth int, seen map[ssa.
 			d.appends = append(d.appends, drvAppend{x, e})
 			return d.eval(ops[0], e, depth+1), true
 		}
-		f := x.Call.StaticCallee()
-		if f == nil || f.Blocks == nil || f.Pkg != d.w.Cmd {
+		return d.derivedFromCall(x, -1, e, depth, seen)
+	}
+	return symv{}, false
+}
+
+// derivedFromCall: the list is result number idx (-1: the only result) of a cmd helper.
+func (d *driver) derivedFromCall(x *ssa.Call, idx int, e *drvEnv, depth int, seen map[ssa.Value]bool) (symv, bool) {
+	f := x.Call.StaticCallee()
+	if f == nil || f.Blocks == nil || fnPkg(f) != d.w.Cmd {
+		return symv{}, false
+	}
+	ne := &drvEnv{params: map[*ssa.Parameter]drvBound{}, free: map[*ssa.FreeVar]symv{}, tbl: e.tbl, lit: e.lit}
+	for i, p := range f.Params {
+		if i < len(x.Call.Args) {
+			ne.params[p] = drvBound{x.Call.Args[i], e}
+		}
+	}
+	var res *symv
+	for _, b := range f.Blocks {
+		ret, ok := b.Instrs[len(b.Instrs)-1].(*ssa.Return)
+		if !ok {
+			continue
+		}
+		var rv ssa.Value
+		switch {
+		case idx < 0 && len(ret.Results) == 1:
+			rv = ret.Results[0]
+		case idx >= 0 && idx < len(ret.Results):
+			rv = ret.Results[idx]
+		default:
+			continue
+		}
+		if k, isC := rv.(*ssa.Const); isC && k.IsNil() {
+			continue
+		}
+		s, ok := d.derivedElem(rv, ne, depth+1, seen)
+		if !ok {
 			return symv{}, false
 		}
-		ne := &drvEnv{params: map[*ssa.Parameter]drvBound{}, free: map[*ssa.FreeVar]symv{}, tbl: e.tbl, lit: e.lit}
-		for i, p := range f.Params {
-			if i < len(x.Call.Args) {
-				ne.params[p] = drvBound{x.Call.Args[i], e}
-			}
+		if res != nil && !sameSym(*res, s) {
+			return symv{}, false
 		}
-		var res *symv
-		for _, b := range f.Blocks {
-			ret, ok := b.Instrs[len(b.Instrs)-1].(*ssa.Return)
-			if !ok || len(ret.Results) != 1 {
-				continue
-			}
-			if k, isC := ret.Results[0].(*ssa.Const); isC && k.IsNil() {
-				continue
-			}
-			s, ok := d.derivedElem(ret.Results[0], ne, depth+1, seen)
-			if !ok {
-				return symv{}, false
-			}
-			if res != nil && !sameSym(*res, s) {
-				return symv{}, false
-			}
-			res = &s
-		}
-		if res != nil {
-			return *res, true
-		}
+		res = &s
+	}
+	if res != nil {
+		return *res, true
 	}
 	return symv{}, false
 }
